@@ -17,6 +17,14 @@ OBLIGATIONS = [
     "int_keyed_dict_refuted", "set_refuted", "namedtuple_nested_refuted",
     "mgm2_fake_offer_drops_offers_refuted", "nonfinite_float_refuted",
     "tuple_and_namedtuple_survive", "maxsum_int_keys_survive", "mgm2_offer_survives",
+    # deepening (P_Repr2/3/4.v)
+    "int_of_str_of_int", "sort_increasing_is_identity", "generic_roundtrip", "wf_extends_safe",
+    "roundtrip_tuple", "roundtrip_maxsum_message", "roundtrip_mgm2_offer_message",
+    "roundtrip_algorithm_def", "roundtrip_expression_function", "roundtrip_agentdef_wire",
+    "agentdef_wire_keeps_costs", "roundtrip_variable_with_cost_dict", "roundtrip_ordered_node",
+    "roundtrip_constraint_link", "roundtrip_domain", "roundtrip_computation_def_pseudotree",
+    "roundtrip_computation_def_factor_graph", "roundtrip_computation_def_hypergraph",
+    "roundtrip_computation_def_ordered_graph",
 ]
 N_QUICK, N_THOROUGH = 200, 2500
 PARALLEL = 8
@@ -30,7 +38,8 @@ RULE = ("seeded mix of: (tree) random python value trees over None/bool/int/floa
         "messages really sent during a thread-free run; (census) one attempt to instantiate every "
         "SimpleRepr/Message subclass found by introspection. non-trivial = at least one container, "
         "object or message in the case; distinct = distinct case JSON")
-MODELLED = ("theorems: generic mixin + JSON step round trip for every wire-safe value, one round-trip "
+MODELLED = ("theorems: generic mixin + JSON step round trip for every well-formed value (incl. tuples of any "
+            "length, namedtuples, constructor conversions, every hand-written repr, nested), one round-trip "
             "theorem per hand-written repr, AgentDef pickling, refutation witnesses for the lossy "
             "shapes; whether each pyDCOP class satisfies the mixin contract is checked class by class "
             "by this run (model prediction of the decoded object + independent deep comparison "
@@ -42,7 +51,11 @@ META = dict(
                 "and objects of classes following the SimpleRepr constructor convention, plus one "
                 "round-trip theorem for each hand-written repr (MaxSumMessage, Mgm2OfferMessage, "
                 "PseudoTreeLink, OrderLink, FactorGraphLink, AlgorithmDef, ExpressionFunction, "
-                "AgentDef, ordered-graph node) and for AgentDef pickling; partial: that each of "
+                "AgentDef, VariableWithCostDict, ordered-graph node), for the generic classes whose "
+                "constructor converts an argument (Domain, Link, ConstraintLink), for the "
+                "ComputationDef of each of the four graph models and for AgentDef pickling - all as "
+                "corollaries of one theorem (generic_roundtrip) over an explicit well-formedness "
+                "predicate; partial: that each of "
                 "pyDCOP's ~90 serialisable classes follows the convention is established by the "
                 "differential run that enumerates them, not by a theorem."),
     level_note=("Trusted: Coq kernel/vm_compute, M_Repr.v, the harness (object -> tree observation), "
